@@ -27,7 +27,10 @@ Part B  `Mpo(...).bond_dims` for algo in {Hopcroft-Karp, Hungarian}
     recorded (wrapper on the module attribute) and judged as in part A.
 
 Known defect reported with its own signatures (D13): Hopcroft-Karp on a graph without edges
-(IndexError) and with trailing isolated U vertices (U table too short).
+(IndexError; signature `raises:Hopcroft-Karp:edgeless:index`, the same string as the L2 harness c20.py
+uses, so that one known-findings entry covers both) and with trailing isolated U vertices (U table
+too short; `cover:Hopcroft-Karp:trailing-isolated-U:short-U-table`).  A graph with no U vertex at
+all (bigraph = []) is not generated.
 
 Replay objects carry the adjacency matrix (rows = U, columns = V), the literal neighbour lists
 handed to the routine, the algorithm, the returned tables and the expected minimum.
@@ -93,7 +96,7 @@ def judge_cover(run, A, bigraph, algo, expected_min, where, extra=None):
         rep["observed"] = f"{type(e).__name__}: {e}"
         if algo == "Hopcroft-Karp" and nedge == 0 and isinstance(e, IndexError):
             run.count("D13:edgeless:IndexError")
-            report(run, "cover:Hopcroft-Karp:edgeless-graph:IndexError", rep)
+            report(run, "raises:Hopcroft-Karp:edgeless:index", rep)
         else:
             run.count(f"exception:{algo}:{type(e).__name__}")
             report(run, f"cover:{algo}:exception:{type(e).__name__}", rep)
